@@ -64,6 +64,8 @@ func (w *World) takeSnapshot(healthy bool) {
 				s.file.Plan = WritePlan{FailAtCall: f.At, FailAtByte: -1}
 			case "snap-write-byte":
 				s.file.Plan = WritePlan{FailAtByte: f.N}
+			case "snap-write-short":
+				s.file.Plan = WritePlan{FailAtByte: f.N, ShortNoErr: true}
 			}
 		}
 	}
